@@ -142,6 +142,19 @@ def scenario_for(cls, variant):
     elif cls == "quantized_sigmoid":
       q = ip.call(Q.qcls(ip, cls), [SNum(bits)], {})
       s.info["custom"] = ("sigmoid", bits)
+    elif cls in ("binary", "ternary") and variant.startswith("auto"):
+      # data-dependent least-squares scale: it must stay under stop_gradient, so the surrogate is the identity
+      # (derivative of the group reduction unconstrained, as for quantized_bits auto; seed c06-7)
+      if cls == "binary":
+        q = ip.call(Q.qcls(ip, cls), [False, variant], {})
+      else:
+        q = ip.call(Q.qcls(ip, cls), [variant, None], {})
+      x = Q.tensor("x", grad=True, shape=(3, 4))
+      s.vars["x"] = x.e
+      xe = x.e
+      expected = z3.RealVal(1)
+      nonzero_region = z3.BoolVal(True)
+      rep.update({"alpha": variant, "shape": [3, 4]})
     elif cls in ("binary", "ternary"):
       alpha = None if variant == "unscaled" else 2.0
       if cls == "binary":
@@ -217,7 +230,7 @@ def cases(tier):
            ("quantized_relu_po2", ["plain_ste", "leaky_ste", "plain_noste", "leaky_noste", "plain_ste_mv", "leaky_ste_mv",
                                    "plain_noste_mv", "leaky_noste_mv"]),
            ("quantized_tanh", ["hard"]), ("quantized_sigmoid", ["hard"]),
-           ("binary", ["unscaled", "const"]), ("ternary", ["unscaled", "const"])]
+           ("binary", ["unscaled", "const", "auto", "auto_po2"]), ("ternary", ["unscaled", "const", "auto", "auto_po2"])]
   for cls, variants in table:
     for v in variants:
       out.append(Case(PROP, Q.QF + cls + ".__call__", v, scenario_for(cls, v), bounds=bounds,
